@@ -34,9 +34,6 @@ Fixpoint last_epoch_extra (epoch : N) (l : list gblock) : option bytes :=
 Definition kept (ch : list gblock) (b : gblock) : Prop :=
   forall j, In j ch -> gnum b < gnum j -> gnum j < gnum b + gb_eff j.
 
-Definition pend_of (l : list bytes) : option (list bytes) := match l with [] => None | _ => Some l end.
-Definition pend_read (p : option (list bytes)) : list bytes := match p with Some v => v | None => [] end.
-
 Lemma pend_read_of l : pend_read (pend_of l) = l.
 Proof. destruct l; reflexivity. Qed.
 
